@@ -30,21 +30,31 @@ func (w *World) probes(ctx sdk.Context, l *Ledger, c *curve, s0 *big.Rat) []prob
 	sf := ratDec(w.SF)
 	p := w.pool(ctx)
 	pb := bal(w, ctx, p.GetAddress())
+	// synthesised amounts are real base units; the size cap grows with the scenario's amount scale
+	maxBits := 100 + w.scale.BitLen() - 1
 	for dir := 0; dir < 2; dir++ {
 		for _, a := range []int64{1, 999, 400000, 30000000} {
-			ps = append(ps, probe{dir, true, big.NewInt(a), "fixed"})
+			ps = append(ps, probe{dir, true, w.amtBig(a), "fixed"})
 		}
 		for _, a := range []int64{1, 250000} {
-			ps = append(ps, probe{dir, false, big.NewInt(a), "fixed"})
+			ps = append(ps, probe{dir, false, w.amtBig(a), "fixed"})
 		}
 		if in, out, ok := c.toNextTick(s0, dir == 0, sf); ok {
 			ci := ceilRat(in)
 			fo := floorRat(out)
+			// exact-in: one unit either side of the ideal amount. With an amount scale the spread charge of the step is
+			// rounded up by as much as amountIn*1e-18 (>> 1 unit), so the ideal amount +-1 no longer reaches the tick (the
+			// swap is refused as over-charged or ends just short of it); the neighbours are then the ideal amount
+			// -+ (that rounding + 2 units): the smallest inputs that end just before / carry a remainder across the tick
+			m := big.NewInt(1)
+			if w.Cfg.Exp10 != 0 {
+				m = new(big.Int).Add(new(big.Int).Quo(ci, ten18), big.NewInt(2))
+			}
 			for _, d := range []int64{-1, 0, 1} {
-				if x := new(big.Int).Add(ci, big.NewInt(d)); x.Sign() > 0 && x.BitLen() < 100 {
+				if x := new(big.Int).Add(ci, new(big.Int).Mul(m, big.NewInt(d))); x.Sign() > 0 && x.BitLen() < maxBits {
 					ps = append(ps, probe{dir, true, x, "to-next-tick"})
 				}
-				if x := new(big.Int).Add(fo, big.NewInt(d)); x.Sign() > 0 && x.BitLen() < 100 {
+				if x := new(big.Int).Add(fo, big.NewInt(d)); x.Sign() > 0 && x.BitLen() < maxBits {
 					ps = append(ps, probe{dir, false, x, "to-next-tick"})
 				}
 			}
@@ -55,7 +65,7 @@ func (w *World) probes(ctx sdk.Context, l *Ledger, c *curve, s0 *big.Rat) []prob
 		}
 		have := pb.AmountOf(outDenom).BigInt()
 		for _, d := range []int64{-1, 0, 1} {
-			if x := new(big.Int).Add(have, big.NewInt(d)); x.Sign() > 0 && x.BitLen() < 100 {
+			if x := new(big.Int).Add(have, big.NewInt(d)); x.Sign() > 0 && x.BitLen() < maxBits {
 				ps = append(ps, probe{dir, false, x, "drain"})
 			}
 		}
@@ -118,14 +128,20 @@ func (w *World) CheckC03(ctx sdk.Context, l *Ledger, fail func(a, s, d string), 
 				TokenIn: sdk.NewCoin(in, amt), TokenOutMinAmount: sdkmath.OneInt()})
 		} else {
 			r = core.Deliver(a, b, &pmtypes.MsgSwapExactAmountOut{Sender: t.String(), Routes: []pmtypes.SwapAmountOutRoute{{PoolId: w.PoolID, TokenInDenom: in}},
-				TokenOut: sdk.NewCoin(out, amt), TokenInMaxAmount: sdkmath.NewIntFromUint64(1 << 62)})
+				TokenOut: sdk.NewCoin(out, amt), TokenInMaxAmount: w.maxIn()})
 		}
 		res.Transitions++
 		if !r.OK() {
 			vac["probe_swaps_rejected"]++
+			if w.Cfg.Exp10 != 0 {
+				vac[fmt.Sprintf("at_scale_rejected:%s:exactIn=%v:%s", pr.kind, pr.in, errClass(r.Err))]++
+			}
 			continue
 		}
 		vac["probe_swaps_executed"]++
+		if w.Cfg.Exp10 != 0 {
+			vac[fmt.Sprintf("at_scale_executed:%s:exactIn=%v", pr.kind, pr.in)]++
+		}
 		after := bal(w, b, t)
 		inImpl := before.AmountOf(in).Sub(after.AmountOf(in))
 		outImpl := after.AmountOf(out).Sub(before.AmountOf(out))
@@ -168,6 +184,18 @@ func (w *World) CheckC03(ctx sdk.Context, l *Ledger, fail func(a, s, d string), 
 		//   exact-in : out_impl >= floor(curve_out(in_impl - k)) - k
 		//   exact-out: in_impl  <= ceil(curve_in(out_impl + k)) + k
 		// The smallest j <= k that already satisfies the bound is recorded so the margin can be seen.
+		//
+		// Amount scale. The whole-unit count above is complete as long as every 18-decimal Dec rounding is worth less
+		// than a unit, i.e. for amounts below 1e18 (Exp10 = 0: k is exactly 2*steps+2, as it always was). With Exp10 != 0
+		// the documented fixed-point roundings are no longer sub-unit and are added, per rounding event of the code:
+		//   - per step that charges a spread: the factor sf/(1-sf) is a Dec rounded UP at the 18th decimal (QuoRoundUp)
+		//     and multiplied with the step's amountIn (MulRoundUp): worth <= amountIn_step * 1e-18 + 1e-18; the steps'
+		//     amountIn sum to at most in_impl, so the sum over the swap is <= in_impl * 1e-18 + steps * 1e-18;
+		//   - per step: the next sqrt price / the tick sqrt prices are BigDecs rounded at the 36th decimal (two roundings
+		//     toward the pool); an error of 1e-36 in sqrtP is worth L*1e-36 of token1 and L*1e-36/(sqrtPa*sqrtPb) of token0:
+		//     <= L_step * 2e-36 * max(1, 1/(sqrtPa*sqrtPb)) (negligible, counted);
+		//   k = 2*steps + 2 + ceil( in_impl*1e-18 + sum_steps( 1e-18 + L_step*2e-36*max(1, 1/(sqrtPa*sqrtPb)) ) )
+		// (the first term is dropped when the spread factor is zero: no charge is computed). One-sidedness stays exact.
 		k := int64(2*wr.Steps + 2)
 		if wr.Steps >= 2 {
 			vac["probe_swaps_crossing_ticks"]++
@@ -175,52 +203,81 @@ func (w *World) CheckC03(ctx sdk.Context, l *Ledger, fail func(a, s, d string), 
 		if wr.Exhausted {
 			vac["probe_ideal_exhausted"]++
 		}
+		scaled := w.Cfg.Exp10 != 0
+		debugTag = fmt.Sprintf("%s | %s | in=%s out=%s steps=%d", w.Cfg, tag, inImpl, outImpl, wr.Steps)
+		var kBig *big.Int
+		if scaled {
+			kBig = new(big.Int).Add(big.NewInt(k), decRoundingAllowance(&wr, inImpl.BigInt(), sf))
+			vac["probe_swaps_at_18_decimal_scale"]++
+			if new(big.Int).Quo(inImpl.BigInt(), ten18).Cmp(big.NewInt(10)) >= 0 {
+				// a Dec rounding of this swap's spread charge is worth at least 10 units
+				vac["probes_where_a_dec_rounding_exceeds_10_units"]++
+			}
+		}
 		if pr.in {
 			idealOut := floorRat(wr.Out)
 			if outImpl.BigInt().Cmp(idealOut) > 0 {
 				fail("c03.out-never-exceeds-curve", "", fmt.Sprintf("%s: paid out %s, exact curve gives %s (floor %s) for input %s", tag, outImpl, wr.Out.FloatString(6), idealOut, inImpl))
 			}
-			okAt := int64(-1)
-			for j := int64(0); j <= k; j++ {
-				inJ := new(big.Int).Sub(inImpl.BigInt(), big.NewInt(j))
+			// holds(j): out_impl >= floor(curve_out(in_impl - j)) - j ; monotone in j
+			holds := func(j *big.Int) bool {
+				inJ := new(big.Int).Sub(inImpl.BigInt(), j)
 				if inJ.Sign() <= 0 {
-					okAt = j
-					break
+					return true
 				}
 				wj := c.walk(s0, pr.dir == 0, true, new(big.Rat).SetInt(inJ), sf)
-				lb := new(big.Int).Sub(floorRat(wj.Out), big.NewInt(j))
-				if outImpl.BigInt().Cmp(lb) >= 0 {
-					okAt = j
-					break
-				}
+				lb := new(big.Int).Sub(floorRat(wj.Out), j)
+				return outImpl.BigInt().Cmp(lb) >= 0
 			}
-			noteSlack(res, okAt, k)
-			if okAt < 0 {
-				fail("c03.out-close-to-curve", "", fmt.Sprintf("%s: charged %s paid out %s; exact curve gives %s for that input and still more than out+%d for input-%d (%d steps)", tag, inImpl, outImpl, wr.Out.FloatString(6), k, k, wr.Steps))
+			if scaled {
+				if !noteSlackScaled(res, holds, kBig) {
+					fail("c03.out-close-to-curve", "", fmt.Sprintf("%s: charged %s paid out %s; exact curve gives %s for that input and still more than out+%s for input-%s (%d steps)", tag, inImpl, outImpl, wr.Out.FloatString(6), kBig, kBig, wr.Steps))
+				}
+			} else {
+				okAt := int64(-1)
+				for j := int64(0); j <= k; j++ {
+					if holds(big.NewInt(j)) {
+						okAt = j
+						break
+					}
+				}
+				noteSlack(res, okAt, k)
+				if okAt < 0 {
+					fail("c03.out-close-to-curve", "", fmt.Sprintf("%s: charged %s paid out %s; exact curve gives %s for that input and still more than out+%d for input-%d (%d steps)", tag, inImpl, outImpl, wr.Out.FloatString(6), k, k, wr.Steps))
+				}
 			}
 		} else {
 			idealIn := ceilRat(wr.In)
 			if !wr.Exhausted && inImpl.BigInt().Cmp(idealIn) < 0 {
 				fail("c03.in-never-below-curve", "", fmt.Sprintf("%s: charged %s, exact curve requires %s (ceil %s) for output %s", tag, inImpl, wr.In.FloatString(6), idealIn, outImpl))
 			}
-			okAt := int64(-1)
-			for j := int64(0); j <= k; j++ {
-				outJ := new(big.Int).Add(outImpl.BigInt(), big.NewInt(j))
+			// holds(j): in_impl <= ceil(curve_in(out_impl + j)) + j ; monotone in j
+			holds := func(j *big.Int) bool {
+				outJ := new(big.Int).Add(outImpl.BigInt(), j)
 				wj := c.walk(s0, pr.dir == 0, false, new(big.Rat).SetInt(outJ), sf)
 				if wj.Exhausted {
 					// the curve cannot deliver that much more: no upper bound can be derived, accept
-					okAt = j
-					break
+					return true
 				}
-				ub := new(big.Int).Add(ceilRat(wj.In), big.NewInt(j))
-				if inImpl.BigInt().Cmp(ub) <= 0 {
-					okAt = j
-					break
-				}
+				ub := new(big.Int).Add(ceilRat(wj.In), j)
+				return inImpl.BigInt().Cmp(ub) <= 0
 			}
-			noteSlack(res, okAt, k)
-			if okAt < 0 {
-				fail("c03.in-close-to-curve", "", fmt.Sprintf("%s: paid out %s charged %s; exact curve requires %s for that output and still less than in-%d for output+%d (%d steps)", tag, outImpl, inImpl, wr.In.FloatString(6), k, k, wr.Steps))
+			if scaled {
+				if !noteSlackScaled(res, holds, kBig) {
+					fail("c03.in-close-to-curve", "", fmt.Sprintf("%s: paid out %s charged %s; exact curve requires %s for that output and still less than in-%s for output+%s (%d steps)", tag, outImpl, inImpl, wr.In.FloatString(6), kBig, kBig, wr.Steps))
+				}
+			} else {
+				okAt := int64(-1)
+				for j := int64(0); j <= k; j++ {
+					if holds(big.NewInt(j)) {
+						okAt = j
+						break
+					}
+				}
+				noteSlack(res, okAt, k)
+				if okAt < 0 {
+					fail("c03.in-close-to-curve", "", fmt.Sprintf("%s: paid out %s charged %s; exact curve requires %s for that output and still less than in-%d for output+%d (%d steps)", tag, outImpl, inImpl, wr.In.FloatString(6), k, k, wr.Steps))
+				}
 			}
 		}
 		// landing exactly on an initialised tick
@@ -262,4 +319,87 @@ func noteSlack(res *core.Result, j, k int64) {
 	if cur, _ := res.Extra["max_slack_over_tolerance"].(float64); ratio > cur {
 		res.Extra["max_slack_over_tolerance"] = ratio
 	}
+}
+
+// decRoundingAllowance is the part of the closeness tolerance that accounts for the code's fixed-point roundings
+// at amounts where they exceed a base unit (see the rule in CheckC03):
+//
+//	ceil( in_impl*1e-18 [only if sf > 0] + sum over steps ( 1e-18 + L*2e-36*max(1, 1/(sqrtPa*sqrtPb)) ) )
+func decRoundingAllowance(wr *walkResult, inImpl *big.Int, sf *big.Rat) *big.Int {
+	e := new(big.Rat)
+	e18 := new(big.Rat).SetFrac(big.NewInt(1), ten18)
+	if sf.Sign() > 0 {
+		e.Mul(new(big.Rat).SetInt(inImpl), e18)
+	}
+	two36 := new(big.Rat).SetFrac(big.NewInt(2), ten36)
+	one := ratInt(1)
+	for i := range wr.StepLiq {
+		e.Add(e, e18)
+		amp := new(big.Rat).Inv(new(big.Rat).Mul(wr.StepFrom[i], wr.StepTo[i]))
+		if amp.Cmp(one) < 0 {
+			amp = one
+		}
+		t := new(big.Rat).Mul(wr.StepLiq[i], two36)
+		e.Add(e, t.Mul(t, amp))
+	}
+	return ceilRat(e)
+}
+
+// Largest slack seen so far at 18-decimal scale, kept exactly (the evidence carries the float64 images).
+var debugTag string
+
+var (
+	scaledMaxUnits = new(big.Int)
+	scaledMaxRatio = new(big.Rat)
+)
+
+// noteSlackScaled is noteSlack for tolerances too large to try one unit at a time. The closeness bound is monotone
+// in j, so the smallest j in [0,k] that satisfies it is found by bisection - but only for the probes that raise one of
+// the two recorded maxima (largest j needed, largest j/k): with j* = min(max units so far, floor(max ratio so far * k)),
+// a probe whose bound holds at j* changes neither and costs one walk. The maxima are therefore exact and do not
+// depend on the order in which probes are evaluated. Reported under separate keys so that the figures of the
+// unit-scale configurations stay what they were. Returns whether the bound holds at k.
+func noteSlackScaled(res *core.Result, holds func(j *big.Int) bool, k *big.Int) bool {
+	kf, _ := new(big.Float).SetInt(k).Float64()
+	if cur, _ := res.Extra["max_tolerance_units_at_scale"].(float64); kf > cur {
+		res.Extra["max_tolerance_units_at_scale"] = kf
+	}
+	jstar := floorRat(new(big.Rat).Mul(scaledMaxRatio, new(big.Rat).SetInt(k)))
+	if scaledMaxUnits.Cmp(jstar) < 0 {
+		jstar.Set(scaledMaxUnits)
+	}
+	if jstar.Cmp(k) > 0 {
+		jstar.Set(k)
+	}
+	if holds(jstar) {
+		return true
+	}
+	ok := holds(k)
+	need := new(big.Int).Add(k, big.NewInt(1))
+	if ok {
+		// invariant: lo fails, hi holds
+		lo, hi := jstar, new(big.Int).Set(k)
+		for new(big.Int).Sub(hi, lo).Cmp(big.NewInt(1)) > 0 {
+			mid := new(big.Int).Add(lo, hi)
+			mid.Rsh(mid, 1)
+			if holds(mid) {
+				hi = mid
+			} else {
+				lo = mid
+			}
+		}
+		need = hi
+	}
+	if need.Cmp(scaledMaxUnits) > 0 {
+		scaledMaxUnits.Set(need)
+		res.Extra["max_units_of_slack_needed_at_scale"], _ = new(big.Float).SetInt(need).Float64()
+	}
+	if ratio := new(big.Rat).SetFrac(need, k); ratio.Cmp(scaledMaxRatio) > 0 {
+		if os.Getenv("VERIF_DEBUG_SLACK") != "" {
+			fmt.Fprintf(os.Stderr, "slack: need=%s k=%s %s\n", need, k, debugTag)
+		}
+		scaledMaxRatio.Set(ratio)
+		res.Extra["max_slack_over_tolerance_at_scale"], _ = ratio.Float64()
+	}
+	return ok
 }
